@@ -60,6 +60,41 @@ Proof. split; vm_compute; reflexivity. Qed.
 Lemma discipline_generated : gen_discipline_violations = 0.
 Proof. vm_compute. reflexivity. Qed.
 
+(* pp.py: the four preprocessor regexes are the reviewed ones, none has an unbounded repetition nested in an unbounded
+   repetition over overlapping character classes (generated counts, vt/gen/c03_static.py) *)
+Lemma pp_regex_generated : gen_pp_regex_violations = 0 /\ Nat.leb 4 gen_pp_patterns = true.
+Proof. split; vm_compute; reflexivity. Qed.
+
+(* no magic reads a lazily expanded positional argument more than once on one control path beyond the allow-list *)
+Lemma arg_reads_generated : gen_arg_reread_violations = 0.
+Proof. vm_compute. reflexivity. Qed.
+
+(* Cost of k self-nested calls {{f:a|{{f:a|...}}}} when every level reads (= re-expands, ArgumentList.get caches nothing) the
+   argument holding the next level r times: expansions(r, k). *)
+Fixpoint nest_cost (r k : nat) : nat :=
+  match k with
+  | O => 1
+  | S k' => 1 + r * nest_cost r k'
+  end.
+
+Lemma nest_cost_once k : nest_cost 1 k = k + 1.
+Proof. induction k as [|k IH]; cbn [nest_cost]; [reflexivity|]. rewrite IH. lia. Qed.
+
+Lemma nest_cost_twice k : nest_cost 2 k + 1 = 2 ^ (k + 1).
+Proof.
+  induction k as [|k IH]; cbn [nest_cost]; [reflexivity|].
+  replace (S k + 1) with (S (k + 1)) by lia. rewrite Nat.pow_succ_r'. lia.
+Qed.
+
+Lemma nest_cost_mono r r' k : r <= r' -> nest_cost r k <= nest_cost r' k.
+Proof.
+  intros H. induction k as [|k IH]; cbn [nest_cost]; [lia|].
+  apply le_n_S. apply Nat.mul_le_mono; assumption.
+Qed.
+
+Lemma nest_cost_exponential r k : 2 <= r -> 2 ^ (k + 1) <= nest_cost r k + 1.
+Proof. intros H. rewrite <- nest_cost_twice. pose proof (nest_cost_mono 2 r k H). lia. Qed.
+
 (* every #expr operator is implemented by the pinned callable (generated count; `^` is math.pow, never an exact integer power) *)
 Lemma expr_impl_generated : gen_expr_impl_violations = 0 /\ gen_expr_operators = 34.
 Proof. split; vm_compute; reflexivity. Qed.
